@@ -165,4 +165,8 @@ Proof.
   - intros i. rewrite rowsum_bil, plain_is_quad. apply quad_rowsum, nabla_rs0.
 Qed.
 
+Theorem lapt_sym_rowsum (d : list T) (P : list (Z * Z * Z)) :
+  (symm (lapt_weighted O d P) /\ rs0 (lapt_weighted O d P)) /\ (symm (lapt_plain O P) /\ rs0 (lapt_plain O P)).
+Proof. split; [apply lapt_weighted_sym_rowsum | apply lapt_plain_sym_rowsum]. Qed.
+
 End Dual.
